@@ -14,7 +14,8 @@
    - entries are the exact numbers of SymEngine: Integer/Rational (canonical: [Qc]) and
      the two objects that division by zero produces instead of an exception, zoo
      (ComplexInf) and nan.  add/sub/mul/div are the Basic-level functions of add.cpp /
-     mul.cpp on these (tabulated from the library; zoo + nan = zoo but nan + zoo = nan);
+     mul.cpp on these (tabulated from the library: zoo + zoo = nan, 0 * zoo = nan, x / 0 = zoo
+     for x <> 0 including nan / 0, 0 / 0 = nan, x / zoo = 0);
    - loops are structural ([for_up], [for_down]); `break` out of a column loop whose guard
      stays true afterwards is a no-op for the remaining iterations; exceptions are [ErrExn];
    - branches that look wrong are transcribed as they are: the unpivoted routines divide by
@@ -58,7 +59,7 @@ Definition x_eqb (a b : qx) : bool :=
   | _, _ => false
   end.
 
-(* add(a, b): Add folds its numeric coefficient from the left *)
+(* add(a, b) (nan absorbs in both orders since the repair of Infty::add) *)
 Definition xadd (a b : qx) : qx :=
   match a, b with
   | Fin p, Fin q => Fin (Qcplus p q)
@@ -66,7 +67,7 @@ Definition xadd (a b : qx) : qx :=
   | Fin _, NaNv => NaNv
   | Zoo, Fin _ => Zoo
   | Zoo, Zoo => NaNv
-  | Zoo, NaNv => Zoo
+  | Zoo, NaNv => NaNv
   | NaNv, _ => NaNv
   end.
 
